@@ -9,10 +9,12 @@ package tape
 import (
 	"hash/fnv"
 	"math/rand/v2"
+	"sync"
 )
 
 // Tape hands out choices and records them.
 type Tape struct {
+	mu         sync.Mutex // protects rec against the watchdog's snapshot
 	rng        *rand.Rand
 	replay     []uint32
 	replayMode bool
@@ -65,7 +67,9 @@ func (t *Tape) Choose(n int, label string) int {
 	} else if n > 1 {
 		v = uint32(t.rng.IntN(n))
 	}
+	t.mu.Lock()
 	t.rec = append(t.rec, v)
+	t.mu.Unlock()
 	if t.keepLabels {
 		t.labels = append(t.labels, label)
 	}
@@ -123,10 +127,90 @@ func (t *Tape) Bytes(n int, label string) []byte {
 }
 
 // Recorded returns the values consumed so far.
-func (t *Tape) Recorded() []uint32 { return append([]uint32(nil), t.rec...) }
+func (t *Tape) Recorded() []uint32 {
+	t.mu.Lock()
+	defer t.mu.Unlock()
+	return append([]uint32(nil), t.rec...)
+}
 
 // Labels returns the labels of the draws (only with KeepLabels).
 func (t *Tape) Labels() []string { return t.labels }
 
 // Len returns the number of draws so far.
 func (t *Tape) Len() int { return len(t.rec) }
+
+// Sub is a view of a tape whose values come from an independently seeded PRNG (so that several runs
+// can share the same "base" choices) but are recorded on, and replayed from, the parent tape.
+type Sub struct {
+	parent *Tape
+	rng    *rand.Rand
+}
+
+// Sub derives a view seeded by (seed, name, idx).
+func (t *Tape) Sub(seed int64, name string, idx int) *Sub {
+	a, b := Seed(seed, name, idx)
+	return &Sub{parent: t, rng: rand.New(rand.NewPCG(a, b))}
+}
+
+// Choose draws from the derived PRNG (generating parent) or from the parent's replay values.
+func (s *Sub) Choose(n int, label string) int {
+	var v uint32
+	if n > 1 {
+		v = uint32(s.rng.IntN(n))
+	}
+	return s.parent.force(v, n, label)
+}
+
+// Bias is Tape.Bias on the view.
+func (s *Sub) Bias(num, den int, label string) bool {
+	if num <= 0 {
+		s.Choose(1, label)
+		return false
+	}
+	return s.Choose(den, label) >= den-num
+}
+
+// Range is Tape.Range on the view.
+func (s *Sub) Range(lo, hi int, label string) int {
+	if hi < lo {
+		hi = lo
+	}
+	return lo + s.Choose(hi-lo+1, label)
+}
+
+// Pick is Tape.Pick on the view.
+func (s *Sub) Pick(weights []int, label string) int {
+	total := 0
+	for _, w := range weights {
+		total += w
+	}
+	if total <= 0 {
+		s.Choose(1, label)
+		return 0
+	}
+	v := s.Choose(total, label)
+	for i, w := range weights {
+		if v < w {
+			return i
+		}
+		v -= w
+	}
+	return len(weights) - 1
+}
+
+// force records v (generating) or returns the replayed value (replaying).
+func (t *Tape) force(v uint32, n int, label string) int {
+	if t.replayMode {
+		return t.Choose(n, label)
+	}
+	if n <= 1 {
+		v = 0
+	}
+	t.mu.Lock()
+	t.rec = append(t.rec, v)
+	t.mu.Unlock()
+	if t.keepLabels {
+		t.labels = append(t.labels, label)
+	}
+	return int(v)
+}
